@@ -28,6 +28,12 @@ def main():
     a = ap.parse_args()
     md = os.path.abspath(a.mutant)
     meta = json.load(open(os.path.join(md, "meta.json")))
+    import re as _re
+    if not _re.fullmatch(r"C\d\d", str(meta.get("property", ""))):
+        # some agents put the property text there: the directory name (Cxx-mN) is authoritative
+        mm = _re.match(r"(C\d\d)-m\d+", os.path.basename(md.rstrip("/")))
+        if mm:
+            meta["property"] = mm.group(1)
     res = {"mutant": md, "property": meta.get("property"), "summary": meta.get("summary")}
     wt = tempfile.mkdtemp(prefix="seedwt.")
     out = tempfile.mkdtemp(prefix="seedout.")
